@@ -8,7 +8,10 @@ RULE = ("case = (generator type, construction path, jds, motif sizes, build call
         "per shuffle); exhaustive small family: every jds with N<=3 (quick) / N<=4 (thorough), <=2 topologies, column "
         "sums <=4, sizes in {1,2,3}, ALL permutations; seeded random: N<=12, <=4 topologies, sizes<=5, built-in and "
         "synthetic callbacks, multi-orbit custom motifs; malformed stream (non-divisible sums, missing sizes/builders, "
-        "zero size, unequal orbit counts) where model and code must raise the same exception class. Compared: sequence "
+        "zero size, unequal orbit counts) where model and code must raise the same exception class; a share of the random "
+        "cases are HISTORIES: 2-3 generations on the same algorithm object and the same jds list object (contents "
+        "replaced in place, the previously returned object damaged in between, identical repeats), every call judged "
+        "against the model on the current contents; inputs and configuration are deep-compared before/after. Compared: sequence "
         "of (callback, argument list) calls, the three columns (or the graph), joint_degrees, shuffle protocol. "
         "Non-trivial = a valid case with at least two callback calls; distinct by (type, jds, sizes, indices, pis)")
 EXHAUSTIVE = {"quick": True, "thorough": True}
@@ -56,46 +59,56 @@ def generate(rng, tier):
     n = 500 if quick else 6000
     for i in range(n):
         yield G.random_valid_case(rng, [G.FAST, G.MOTIFS, G.NETWORK, G.MOTIFS][i % 4])
+    # histories: several generations on ONE algorithm object and ONE jds list (stale state, caches, aliasing)
+    for i in range(n // 2):
+        yield G.history_case(rng, [G.FAST, G.MOTIFS, G.NETWORK, G.MOTIFS][i % 4])
     for i in range(n // 3):
         yield G.malformed_case(rng, [G.FAST, G.MOTIFS, G.NETWORK, G.MOTIFS][i % 4])
 
 
 def impl(case):
-    return G.impl_single(case)
+    return G.impl_case(case)
 
 
 def model_calls(case, impl_obs):
-    return [("c01_run", G.model_tree(case))]
+    return G.model_calls_case("c01_run", case)
 
 
 def model_obs(case, raws):
-    return G.decode_run(raws[0])
+    return G.model_obs_case(raws)
 
 
 def compare(case, impl_obs, model):
-    return G.compare_run(case, impl_obs, model)
+    return G.compare_case(case, impl_obs, model)
 
 
 def check_calls(case, impl_obs):
-    return [("c01_check", G.c01_check_tree(case, impl_obs))]
+    steps = G.steps_of(case)
+    if not isinstance(impl_obs, dict):
+        return [("c01_check", G.c01_check_tree(st, ["!exc", "x"])) for st in steps]
+    return [("c01_check", G.c01_check_tree(st, o)) for st, o in zip(steps, impl_obs["steps"])]
 
 
 def check_verdict(case, impl_obs, raws):
-    v = raws[0] if raws else None
-    if v == 2:
-        return None            # hypotheses of C01 not met: nothing claimed (the correspondence still applies)
+    steps = G.steps_of(case)
     if G.is_exc(impl_obs):
-        if G.config_total(case):
+        # hypotheses of C01 met by every step and callbacks total: the call must return
+        if raws and all(v != 2 for v in raws) and G.config_total(case):
             return "implementation raised %s on a handshake-consistent input" % impl_obs[1]
         return None
-    if v == 1:
-        return None
-    return "c01_check rejected the observed run (motif counts / group sizes / stub slots / joint_degrees / vertex range)"
+    for i, v in enumerate(raws):
+        if v == 2:
+            continue       # hypotheses of C01 not met: nothing claimed (the correspondence still applies)
+        if v != 1:
+            where = "" if len(steps) == 1 else " (call %d of %d on the same algorithm object)" % (i + 1, len(steps))
+            return ("c01_check rejected the observed run%s: motif counts / group sizes / stub slots / "
+                    "joint_degrees / vertex range" % where)
+    return None
 
 
 def nontrivial_key(case, impl_obs):
-    if isinstance(impl_obs, dict) and len(impl_obs["calls"]) >= 2 and "kind" not in case:
-        return [case["tag"], case["jds"], case["sizes"], case.get("mis"), case["pis"]]
+    if isinstance(impl_obs, dict) and "kind" not in case and sum(len(o["calls"]) for o in impl_obs["steps"]) >= 2:
+        return [case["tag"], case.get("jds"), case["sizes"], case.get("mis"), case.get("pis"), case.get("steps")]
     return None
 
 
